@@ -84,21 +84,14 @@ theorem append_ok (ns : NsMap) (st : St) (val : Val) (typ : Cps) (hctx : st.ctx 
   cases hc : st.ctx with
   | nil => exact absurd hc hctx
   | cons c r =>
-    simp only [top, hc, bind, Except.bind, pure, Except.pure]
-    split
-    · rename_i hp
-      obtain ⟨s, rfl⟩ := hP hp
-      exact ⟨_, rfl, rfl⟩
-    · obtain ⟨pv, hpv⟩ := takePrefix_ok st.pfx val typ hU
-      simp only [hpv]
-      split
-      · split
-        · split
-          · exact ⟨_, rfl, rfl⟩
-          · exact ⟨_, rfl, rfl⟩
-        · exact ⟨_, rfl, rfl⟩
-      · exact ⟨_, rfl, rfl⟩
-
+    obtain ⟨pv, hpv⟩ := takePrefix_ok st.pfx val typ hU
+    simp only [top, hc, bind, Except.bind, pure, Except.pure, hpv]
+    -- written so that a further early-return branch of `New.append` (re-sync of the model) does not break it
+    repeat' split
+    all_goals first
+      | exact ⟨_, rfl, rfl⟩
+      | (rename_i hp _ hne; obtain ⟨s, hs⟩ := hP hp; exact absurd hs (hne s))
+      | (rename_i hp hne; obtain ⟨s, hs⟩ := hP hp; exact absurd hs (hne s))
 
 /-- what `_prepare_tokens` hands to the state machine -/
 def PrepOk (t : Tok) : Prop :=
